@@ -418,6 +418,13 @@ class ScriptAction:
                 if new not in ups:
                     dev.set_upstream(ups + [new])
                     out = 'added'
+            elif kind == 'rewire_many':
+                # several connections added by one call (a merge point wired up while the line is running)
+                ups = dev.upstream
+                new = [w.devs[x] for x in op['new_ups'] if w.devs[x] not in ups]
+                if new:
+                    dev.set_upstream((new + ups) if op.get('front') else (ups + new))
+                    out = 'added:%d' % len(new)
             elif kind == 'rewire_bad':
                 # a connection change the library must refuse; the caller catches the error and carries on
                 ups = dev.upstream
